@@ -351,34 +351,34 @@ func (ex *Exec) call(fr *Frame, st *State, instr ssa.Value, com *ssa.CallCommon,
 
 // small external leaf functions executed from their real source
 var inlineLeaves = map[string]bool{
-	"(encoding/binary.bigEndian).PutUint64":                          true,
-	"(encoding/binary.bigEndian).Uint64":                             false,
-	"github.com/cosmos/cosmos-sdk/types/address.LengthPrefix":        true,
-	"github.com/cosmos/cosmos-sdk/types/address.MustLengthPrefix":    true,
-	"github.com/cosmos/cosmos-sdk/types.ParseLengthPrefixedBytes":    true,
-	"github.com/cosmos/cosmos-sdk/types/kv.AssertKeyAtLeastLength":   true,
-	"github.com/cosmos/cosmos-sdk/types/kv.AssertKeyLength":          true,
-	"(github.com/cosmos/cosmos-sdk/types.AccAddress).Bytes":          true,
-	"(github.com/cosmos/cosmos-sdk/types.AccAddress).Empty":          true,
-	"(github.com/cosmos/cosmos-sdk/types.AccAddress).Equals":         true,
-	"github.com/cosmos/cosmos-sdk/types.NewCoin":                     true,
-	"github.com/cosmos/cosmos-sdk/types.NewInt64Coin":                true,
-	"github.com/cosmos/cosmos-sdk/types.NewDecCoinFromCoin":          true,
-	"(github.com/cosmos/cosmos-sdk/types.Coin).Validate":             true,
-	"(github.com/cosmos/cosmos-sdk/types.Coin).IsValid":              true,
-	"(github.com/cosmos/cosmos-sdk/types.Coin).IsZero":               true,
-	"(github.com/cosmos/cosmos-sdk/types.Coin).IsGTE":                true,
-	"(github.com/cosmos/cosmos-sdk/types.Coin).IsLT":                 true,
-	"(github.com/cosmos/cosmos-sdk/types.Coin).IsLTE":                true,
-	"(github.com/cosmos/cosmos-sdk/types.Coin).IsEqual":              true,
-	"(github.com/cosmos/cosmos-sdk/types.Coin).Add":                  true,
-	"(github.com/cosmos/cosmos-sdk/types.Coin).AddAmount":            true,
-	"(github.com/cosmos/cosmos-sdk/types.Coin).Sub":                  true,
-	"(github.com/cosmos/cosmos-sdk/types.Coin).SafeSub":              true,
-	"(github.com/cosmos/cosmos-sdk/types.Coin).SubAmount":            true,
-	"(github.com/cosmos/cosmos-sdk/types.Coin).IsPositive":           true,
-	"(github.com/cosmos/cosmos-sdk/types.Coin).IsNegative":           true,
-	"(github.com/cosmos/cosmos-sdk/types.Coin).IsNil":                true,
+	"(encoding/binary.bigEndian).PutUint64":                        true,
+	"(encoding/binary.bigEndian).Uint64":                           false,
+	"github.com/cosmos/cosmos-sdk/types/address.LengthPrefix":      true,
+	"github.com/cosmos/cosmos-sdk/types/address.MustLengthPrefix":  true,
+	"github.com/cosmos/cosmos-sdk/types.ParseLengthPrefixedBytes":  true,
+	"github.com/cosmos/cosmos-sdk/types/kv.AssertKeyAtLeastLength": true,
+	"github.com/cosmos/cosmos-sdk/types/kv.AssertKeyLength":        true,
+	"(github.com/cosmos/cosmos-sdk/types.AccAddress).Bytes":        true,
+	"(github.com/cosmos/cosmos-sdk/types.AccAddress).Empty":        true,
+	"(github.com/cosmos/cosmos-sdk/types.AccAddress).Equals":       true,
+	"github.com/cosmos/cosmos-sdk/types.NewCoin":                   true,
+	"github.com/cosmos/cosmos-sdk/types.NewInt64Coin":              true,
+	"github.com/cosmos/cosmos-sdk/types.NewDecCoinFromCoin":        true,
+	"(github.com/cosmos/cosmos-sdk/types.Coin).Validate":           true,
+	"(github.com/cosmos/cosmos-sdk/types.Coin).IsValid":            true,
+	"(github.com/cosmos/cosmos-sdk/types.Coin).IsZero":             true,
+	"(github.com/cosmos/cosmos-sdk/types.Coin).IsGTE":              true,
+	"(github.com/cosmos/cosmos-sdk/types.Coin).IsLT":               true,
+	"(github.com/cosmos/cosmos-sdk/types.Coin).IsLTE":              true,
+	"(github.com/cosmos/cosmos-sdk/types.Coin).IsEqual":            true,
+	"(github.com/cosmos/cosmos-sdk/types.Coin).Add":                true,
+	"(github.com/cosmos/cosmos-sdk/types.Coin).AddAmount":          true,
+	"(github.com/cosmos/cosmos-sdk/types.Coin).Sub":                true,
+	"(github.com/cosmos/cosmos-sdk/types.Coin).SafeSub":            true,
+	"(github.com/cosmos/cosmos-sdk/types.Coin).SubAmount":          true,
+	"(github.com/cosmos/cosmos-sdk/types.Coin).IsPositive":         true,
+	"(github.com/cosmos/cosmos-sdk/types.Coin).IsNegative":         true,
+	"(github.com/cosmos/cosmos-sdk/types.Coin).IsNil":              true,
 }
 
 func (ex *Exec) havocCall(sig *types.Signature, args []Val, argVals []ssa.Value, st *State, name string) []Outcome {
